@@ -154,7 +154,7 @@ theorem search_answers_unless_panic (fuel : Nat) (g : Game) (tt : TT.Table) (his
   all_goals simp
 
 /-! `T : SliderTables` (the two magic lookups equal the ray walks) is discharged by `Props.C01.sliderTables`
-    from `Props.C07`; it is kept a hypothesis here so that this file stays free of C07's `native_decide`. -/
+    from `Props.C07` (kernel-only since the certificate sweep). -/
 
 /-- non-vacuity: the hypotheses are satisfiable. A concrete legal root (`7k/6Q1/6K1/8/8/8/8/8 b`, the side
 to move checkmated: nothing is reachable, so key faithfulness is provable; for a root with moves it is
